@@ -797,6 +797,49 @@ class OpRunner:
                     res["fresh_shared_nodes"] = len(sh)
                 a.node_ids |= fform.ids
 
+    # -- the caller edits an AST it was given ---------------------------------------
+    def op_mutate(self, op, res):
+        """What user code does with results (cf. examples/rewrite_ast.py): modify
+        them.  Appends a marker to every list of strings (quals, storage, funcspec,
+        names, ...) of an AST returned by an earlier call of this history.  In a
+        correct tree the caller owns that AST, so nothing any later call returns
+        can change.  The op itself is never compared."""
+        a = self.a
+        res["out"] = {"k": "abort", "d": "caller-mutation"}
+        if not a.returned:
+            return
+        j = int(op.get("target", 0)) % len(a.returned)
+        opi, ast, d0 = a.returned[j]
+        n = 0
+        seen = set()
+        stack = [ast]
+        Node = self.pyc.Node
+        while stack:
+            v = stack.pop()
+            if isinstance(v, Node):
+                if id(v) in seen:
+                    continue
+                seen.add(id(v))
+                for sname in type(v).__slots__:
+                    if sname == "__weakref__":
+                        continue
+                    try:
+                        stack.append(getattr(v, sname))
+                    except AttributeError:
+                        pass
+            elif isinstance(v, list):
+                if id(v) in seen:
+                    continue
+                seen.add(id(v))
+                if all(isinstance(x, str) for x in v):
+                    v.append("__caller_edit__")
+                    n += 1
+                else:
+                    stack.extend(v)
+        res["lists_edited"] = n
+        # the edited AST is the caller's business now: do not report it as "mutated later"
+        a.returned[j] = (opi, ast, digest(canon.ast_form(ast, Node).text))
+
     # -- parse_file: the package-level convenience API, reused parser, I/O seam ----
     def op_parse_file(self, op, res):
         """pycparser.parse_file(filename, use_cpp, ..., parser=<long-lived parser>)
@@ -964,6 +1007,7 @@ class OpRunner:
 
         cls = make_sim_lexer(self.w, self.a) if sim else self.pyc.c_lexer.CLexer
         lx = cls(error_func=err, on_lbrace_func=lb, on_rbrace_func=rb, type_lookup_func=lookup)
+        box["_lexer"] = lx
         return (lx, box)
 
     @staticmethod
@@ -1004,6 +1048,14 @@ class OpRunner:
         a = self.a
         sim = bool(op.get("sim"))
         lx, box = self.obj("L1" if sim else "L0", lambda: self._make_lexer(sim))
+        if op.get("swap_callbacks") and a.reuse:
+            # new callback functions on the public attributes of a lexer that has been used
+            _, nbox = self._make_lexer(False)
+            donor = nbox["_lexer"]
+            for name in ("error_func", "on_lbrace_func", "on_rbrace_func", "type_lookup_func"):
+                setattr(lx, name, getattr(donor, name))
+            box = nbox
+            a.objs["L1" if sim else "L0"] = (lx, box)
         a.objs["_cur_lexer"] = lx
         text = op_text(op)
         res["out"] = self._lex_outcome(lx, box, op, text, traced=True)
